@@ -31,7 +31,7 @@ MIN_NONTRIVIAL = {"quick": 200, "thorough": 8000}
 VALID = ["MIT", "0BSD", "Apache-2.0", "GPL-3.0-or-later", "ISC", "CC0-1.0", "Zlib"]
 DEPRECATED = ["GPL-2.0", "AGPL-3.0", "LGPL-2.1"]
 UNKNOWN = ["NotALicense-1.0", "mit", "Foo"]
-OUTCOMES = ["200", "200", "200", "404", "500", "closed", "reset"]
+OUTCOMES = ["200", "200", "200", "404", "500", "closed", "reset", "refused", "refused"]
 
 
 class Stub:
@@ -190,7 +190,25 @@ def run_req(res, ctx, rng, base, idx):
         args += ["--source", str(source)]
     args += ids
     before_p, before_b = snapshot(proj), snapshot(base, with_mtime=True)
-    r = run_cli(gargs + args, cwd=str(cwd))
+    # "refused": the connection for that one identifier cannot be opened at all (failpoint at the library boundary; the
+    # loopback stub serves the others)
+    import urllib.error
+    import urllib.request
+
+    real_urlopen = urllib.request.urlopen
+
+    def urlopen_shim(url, *a, **k):
+        name = str(getattr(url, "full_url", url)).rsplit("/", 1)[-1]
+        if stub.behaviour.get(name) == "refused":
+            ctx.count("refused_injections")
+            raise urllib.error.URLError(ConnectionRefusedError(111, "Connection refused (injected)"))
+        return real_urlopen(url, *a, **k)
+
+    urllib.request.urlopen = urlopen_shim
+    try:
+        r = run_cli(gargs + args, cwd=str(cwd))
+    finally:
+        urllib.request.urlopen = real_urlopen
     after_b = snapshot(base, with_mtime=True)
     res.n += 1
     desc = {"ids": ids, "outcomes": outcomes, "licenses": lic_state, "existing": sorted(existing), "cwd": cwd_kind, "root": use_root, "git": git,
